@@ -7,8 +7,18 @@
    sync, re-created when dropped or failed, until it returns Ok), then calls sync once on the idle writer.
    enc_res is the outcome of encoding a value (payload, or failure after some bytes); enc_fits max e: an accepted
    payload is shorter than 2^32 (always true for max < 2^32, i.e. for every max_len the API can set);
-   frame_part max e = the frame of e if it encodes and |payload| <= max, else nothing. *)
-From MC Require Import Bytes FrameIo FrameIoFacts AsyncIo AsyncIoFacts.
+   frame_part max e = the frame of e if it encodes and |payload| <= max, else nothing.
+   Interleaved operations (second half of this file; proofs in Proofs/AsyncIoOpsFacts.v): the inner object has a
+   second scripted method poll_flush (osink = the asink above + a script KfReady / KfPend / KfErr, then Ready);
+   aw_op (OpFlush cs) is one call of AsyncWriter::flush under the caller decisions cs (after every Pending poll
+   again or drop), aw_op (OpSetMax v) one call of set_max_len; aw_run_ops is aw_run with a stream of gaps, one
+   gap (a list of operations) consumed wherever the caller holds no pending future: before each write, before
+   each (re-)issued sync - i.e. also between a cancelled or failed write and its sync, and between syncs - and
+   before the final sync.  Its events: per value (events of the gap before the write, events of the session),
+   OEvW (write / sync event), OEvF (flush result, FlDropped = future dropped), OEvM v (set_max_len v).
+   last_max m evs = the argument of the last OEvM in evs (m if none); frames_ops / evss_ok judge every value
+   against the max_len in force when its write was issued. *)
+From MC Require Import Bytes FrameIo FrameIoFacts AsyncIo AsyncIoFacts AsyncIoOpsFacts.
 Local Open Scope N_scope.
 
 (* Every list of values, every sink script, every caller script: the sink holds exactly the complete frames
@@ -85,6 +95,44 @@ Theorem C16_reject_in_protocol : forall calls e w k,
     forall fuel, sync_poll fuel SStart w' k = (SyReady SOk, w', k).
 Proof. exact aio_reject_in_protocol. Qed.
 
+(* ---- flush and set_max_len interleaved by the caller ---- *)
+
+(* One poll of a flush future: the writer (buffer, state with its offset, max_len) is returned as it is, and so
+   is the poll_write part of the sink (no bytes, no poll_write call). *)
+Theorem C16_flush_poll_neutral : forall w s p w' s',
+  aw_flush_poll w s = (p, w', s') -> w' = w /\ os_w s' = os_w s.
+Proof. exact flush_poll_neutral. Qed.
+
+(* One call of flush under any caller script - polled to completion, failed, or dropped while pending: the same,
+   and the call ends (the fuel the run gives it is never exhausted). *)
+Theorem C16_flush_neutral : forall cs w s,
+  exists r f', aw_op (OpFlush cs) w s = (OEvF r, w, mkosink (os_w s) f') /\ r <> FlFuel.
+Proof. exact flush_neutral. Qed.
+
+(* set_max_len changes nothing but aw_max (the sink is not touched), and no poll of a sync future - fresh or
+   resumed - depends on aw_max: the frame in flight is sent exactly as it would have been. *)
+Theorem C16_set_max_len_neutral : forall v w s,
+  exists w', aw_op (OpSetMax v) w s = (OEvM v, w', s) /\
+    aw_buf w' = aw_buf w /\ aw_state w' = aw_state w /\ aw_max w' = v /\
+    forall fuel fu k, sync_poll fuel fu w' k = let '(r, w1, k1) := sync_poll fuel fu w k in (r, aw_set_max_len w1 v, k1).
+Proof. exact set_max_len_neutral. Qed.
+
+(* C16_frames for caller scripts with arbitrary flush / set_max_len operations in every gap.  Hypotheses: what the
+   API type gives - the initial max_len and every set_max_len argument is a u32.  The sink holds exactly the
+   complete frames, in order, of the values accepted under the max_len in force when their write was issued
+   (frames_ops); the writer ends idle; the final sync returns Ok; per value the write / sync events are those of
+   C16_frames (evss_ok) and the gaps contain none; #WriteZero = #accept-0 consumed. *)
+Theorem C16_frames_ops : forall max es sched fsched calls gaps b0 c0 fc0,
+  max < 4294967296 -> gaps_u32 gaps ->
+  exists evss fin w' s',
+    aw_run_ops calls gaps es (mkawriter b0 max WNone) (mkosink (mkasink [] sched c0) (mkfsink fsched fc0))
+      = (evss, fin, SyReady SOk, w', s') /\
+    aw_state w' = WNone /\ wevs_of fin = [] /\
+    concat (k_out (os_w s')) = frames_ops max es evss /\
+    evss_ok max es evss /\
+    (length (filter is_wz (all_wevs evss)) + nzero (k_sched (os_w s')) = nzero sched)%nat.
+Proof. exact aio_write_frames_ops. Qed.
+
 Print Assumptions C16_frames.
 Print Assumptions C16_invariant.
 Print Assumptions C16_call.
@@ -93,3 +141,7 @@ Print Assumptions C16_zero.
 Print Assumptions C16_reject.
 Print Assumptions C16_frames_u32.
 Print Assumptions C16_reject_in_protocol.
+Print Assumptions C16_flush_poll_neutral.
+Print Assumptions C16_flush_neutral.
+Print Assumptions C16_set_max_len_neutral.
+Print Assumptions C16_frames_ops.
